@@ -1004,6 +1004,8 @@ class Parsent(object):
         self.closed = False
         self.errored = False
         self.error = None
+        self.parms = None  # not those of the previous message on a reused parser
+        self.trails = None
 
         while not self.started:
             if self.msg:
